@@ -202,6 +202,10 @@ const (
 	DefaultPipelineDrainTimeout = 30 * time.Second
 )
 
+// The protocol send queue must hold a full pipelined batch plus the Done
+// message sent by Stop(); this fails to compile if MaxPipelineLimit outgrows it.
+const _ = uint(protocol.SendQueueSize - MaxPipelineLimit - 1)
+
 // Protocol state timeout constants per Ouroboros Network Specification (Table 3.8).
 const (
 	IdleTimeout         = 3673 * time.Second  // Timeout for client to send next request
